@@ -108,8 +108,8 @@ public:
 	explicit operator long long() const { return to_long_long(); }
 	explicit operator long() const { return to_long(); }
 	explicit operator int() const { return to_int(); }
-	explicit operator unsigned long long() const { return to_long_long(); }
-	explicit operator unsigned long() const { return to_long(); }
+	explicit operator unsigned long long() const { return isneg() ? (unsigned long long)(to_long_long()) : (unsigned long long)(to_long_double()); }
+	explicit operator unsigned long() const { return isneg() ? (unsigned long)(to_long()) : (unsigned long)(to_long_double()); }
 	explicit operator unsigned int() const { return (unsigned int)(to_long()); }
 
 	posit operator-() const {
